@@ -54,6 +54,11 @@ def evaluate(e, env, checked=True):
        'locals': {index: value}. Raises Unknown for anything not understood, Overflow for a
        checked arithmetic failure (when checked=True)."""
     k = e[0]
+    sub = env.get("subst")
+    if sub is not None:
+        v = sub(e)
+        if v is not None:
+            return v
     if k == "const":
         return e[1]
     if k == "arg":
@@ -97,7 +102,7 @@ def evaluate(e, env, checked=True):
     if k == "discr":
         v = evaluate(e[1], env, checked)
         if isinstance(v, tuple) and v and v[0] == "variant":
-            return v[1]
+            return _VARIANT_INDEX.get(v[1], v[1])
         raise Unknown("discr")
     if k == "agg":
         desc = e[1]
@@ -132,6 +137,7 @@ def evaluate(e, env, checked=True):
     raise Unknown(k)
 
 
+_VARIANT_INDEX = {"None": 0, "Some": 1, "Ok": 0, "Err": 1, "Continue": 0, "Break": 1}
 _FIELD_NAMES = {"core::ops::range::Range": ["start", "end"], "core::ops::range::RangeInclusive": ["start", "end", "exhausted"]}
 
 
@@ -215,7 +221,16 @@ def builtin_call(name, args, checked):
     if re.search(r"core::ops::range::RangeInclusive(::)?<", name) and ends("::contains"):
         r, x = args
         return 1 if r[3][0] <= x <= r[3][1] else 0
-    if ends("RangeInclusive<Idx>::new"):
+    if ends("Option::<T>::is_none"):
+        return 1 if args[0][1] == "None" else 0
+    if ends("Option::<T>::is_some"):
+        return 1 if args[0][1] == "Some" else 0
+    if ends("Try>::branch"):
+        v = args[0]
+        if v[1] in ("Some", "Ok"):
+            return ("variant", "Continue", "core::ops::control_flow::ControlFlow", v[3])
+        return ("variant", "Break", "core::ops::control_flow::ControlFlow", v[3])
+    if re.search(r"RangeInclusive(::)?<Idx>::new$", name):
         return ("variant", "RangeInclusive", "core::ops::range::RangeInclusive", (args[0], args[1], 0))
     if ends("core::cmp::Ord::max") or ends("cmp::max"):
         return max(args)
@@ -320,3 +335,26 @@ def label_variant(label):
     if label[0] == "const":
         return label[1]
     return None
+
+
+def map_tree(tree, f):
+    """apply f to every condition expression of a decision tree"""
+    if tree[0] == "switch":
+        return ("switch", f(tree[1]), {v: map_tree(t, f) for v, t in tree[2].items()}, map_tree(tree[3], f), tree[4])
+    return tree
+
+
+def eval_decision_set(tree, env, checked=True):
+    """set of leaf labels reachable for the bindings; conditions that cannot be evaluated are explored both ways"""
+    if tree[0] != "switch":
+        return {tree[1]}
+    try:
+        v = evaluate(tree[1], env, checked)
+    except Unknown:
+        out = set()
+        for sub in list(tree[2].values()) + [tree[3]]:
+            out |= eval_decision_set(sub, env, checked)
+        return out
+    if isinstance(v, bool):
+        v = 1 if v else 0
+    return eval_decision_set(tree[2].get(v, tree[3]), env, checked)
